@@ -1,7 +1,8 @@
 """C17 -- unit conversion is faithful for every declared unit of every quantity.
 
 Tie to /repo on every run:
- (T) translator/dump_units.py regenerates coq/Units/Gen_Tables.v and Gen_Compound.v from the imported
+ (T) translator/dump_units.py regenerates Gen_Tables.v and Gen_Compound.v (in the run's own per-tree
+     directory, see c16_units.Tree) from the imported
      module; the table theorems (Units/GenFacts17.v) are recompiled against them and Props/C17.v is
      re-checked.  A table that breaks a theorem makes the build fail; the offending entries are then
      computed (Coq offender lists + the same clause evaluated on the live classes) and reported as the
@@ -380,6 +381,8 @@ def main(tier: str) -> int:
     phase = {"translate": round(_t.time() - run.t0, 1)}
     _t0 = _t.time()
     proofs_ok = UU.check_proofs(run, tree, extra_tb=[
+        "the names Print Assumptions lists (float, add, sub, mul, div, opp, abs, eqb, ltb, leb) are the kernel's primitive "
+        "binary64 type and operations, which Coq reports there; the development declares no axiom and uses none of FloatAxioms",
         "reflective translator translator/dump_units.py (tables and candidate compound readings regenerated from the imported "
         "module on every run; every dumped entry read back against getattr on the live classes; every compound reading is "
         "re-checked in Coq for spelling, dimension and factor)",
